@@ -2,6 +2,24 @@
 and the signature function that labels a failing case for known_findings.jsonl."""
 
 PROPS = {
+    'C01': {
+        'families': [('c01', 25, 250)],
+        'rule': 'generated (roots, block list, write options) written by every writer kind {blockstore.ReadWrite, storage.NewReadableWritable, storage.NewWritable on a WriterAt, storage stream CARv1, deferred writer for path and for stream, root-module WriteHeader+LdWrite}, each finished file then read by {BlockReader seekable/plain, v2 Reader DataReader payload, internal CARv1 reader, root CarReader with/without empty-roots error, root LoadCar, blockstore.OpenReadOnly keys+Get, storage.OpenReadable Get}; file bytes predicted byte-for-byte by the model and by the layout spec; distinct = distinct script text',
+        'trusted': ['go-ipld-cbor/refmt header encoding as transcribed (validated byte-for-byte on every generated header)'],
+        'assumptions': ['legacy reader preconditions as documented: carv1.NewCarReader and car.NewCarReader reject empty root lists (NewCarReaderWithOptions(WithErrorOnEmptyRoots(false)) is used for those)'],
+    },
+    'C04': {
+        'families': [('c04', 120, 1500)],
+        'rule': 'random operation sequences (Put, PutMany, Has, Get, GetSize, AllKeysChan, Roots, Finalize, FinalizeReadOnly, Close, Discard, file snapshot) over a 10-block alphabet (equal multihash/other codec, identity, equal digest under another hash code, over-long CID, CIDv0, forged same-CID block, sha2-512) x option grid {UseWholeCIDs, AllowDuplicatePuts, StoreIdentityCIDs, WriteAsCarV1, MaxIndexCidSize, paddings, codec} x {blockstore.ReadWrite on a real file, storage.StorageCar on an in-memory ReaderAt/WriterAt}; every result compared with the model of the code and with the reference log',
+        'trusted': ['GoLLRB as an insertion-stable ordered multiset'],
+        'assumptions': ['Get theorems assume stored sections fit MaxAllowedSectionSize (the reader-side limit) and digests fit go-cid\'s 32 MiB stream cap'],
+    },
+    'C05': {
+        'families': [('c05', 60, 600)],
+        'rule': 'put histories (incl. none) x data/index padding x codec x StoreIdentityCIDs x WriteAsCarV1 x {blockstore, storage}: finalized file compared byte-for-byte with the model and with the layout specification (pragma, header fields, padding, payload, index padding, index); the real Reader.Inspect(true) and lib.VerifyCar verdicts on it',
+        'trusted': [],
+        'assumptions': ['WithoutIndex() on a writable store is outside the grid (Finalize reports unknown index codec: documented TODO)'],
+    },
     'C03': {
         'families': [('c03', 60, 600)],
         'rule': 'generated archives (real writers; duplicates, equal digest under different hash codes, identity CIDs, CIDv0, CARv1 with optional null padding / CARv2 with data padding) x {bytes.Reader, plain reader} x {car-index-sorted, car-multihash-index-sorted, insertion index} x {StoreIdentityCIDs, ZeroLengthSectionAsEOF, MaxIndexCidSize}; GetAll/GetFirst for every present CID, codec/hash-code variants and absent CIDs, ForEach where offered; distinct = distinct script text',
@@ -18,6 +36,30 @@ PROPS = {
 }
 
 
+def _uvarint(b, i):
+    x = s = 0
+    while i < len(b):
+        c = b[i]; i += 1
+        x |= (c & 0x7f) << s
+        if c < 0x80:
+            return x, i
+        s += 7
+    return None, i
+
+
+def _cid_is_identity(hexs):
+    try:
+        b = bytes.fromhex(hexs)
+    except ValueError:
+        return False
+    if len(b) == 34 and b[0] == 0x12 and b[1] == 0x20:
+        return False
+    v, i = _uvarint(b, 0)
+    _, i = _uvarint(b, i)
+    code, i = _uvarint(b, i)
+    return v == 1 and code == 0
+
+
 def signature(pid, script, I, S):
     """Deterministic label of WHAT fails, from structural features of the failing case."""
     fam = script.split(' ', 1)[0]
@@ -28,6 +70,14 @@ def signature(pid, script, I, S):
         if 'flip' in toks:
             return 'C02/corruption-not-reported'
         return 'C02/unsound-block-returned'
+    if pid in ('C04', 'C05', 'C01'):
+        if fam == 'size' and _cid_is_identity(toks.get('c', '')):
+            return pid + '/getsize-identity-ignores-store-identity-option'
+        if fam == 'file':
+            return pid + '/file-bytes-differ-from-layout'
+        if fam == 'read':
+            return pid + '/reader-' + toks.get('rd', '?') + '-does-not-return-what-was-written'
+        return pid + '/' + fam + '-result-differs-from-reference-map'
     if pid == 'C03':
         return 'C03/' + toks.get('kind', '?') + '-' + ('v' + toks.get('ver', '?')) + '-index-differs-from-reference-scan'
     return f'{pid}/{fam}'
